@@ -2,6 +2,7 @@ package main
 
 import (
 	"fmt"
+	"path"
 	"path/filepath"
 	"go/types"
 	"strings"
@@ -38,6 +39,7 @@ func init() {
 		"cmp.Compare":              iCmpCompare,
 		"strings.Split":            iStrSplit,
 		"strings.Join":             iStrJoin,
+		"strings.Cut":              iStrCut,
 		"(*sync.Mutex).Lock":       iMutexLock,
 		"(*sync.Mutex).Unlock":     iMutexUnlock,
 		"(*sync.RWMutex).Lock":     iMutexLock,
@@ -77,6 +79,13 @@ func init() {
 	intrinsics["(*fmt.wrapErrors).Unwrap"] = func(in *Interp, fn *ssa.Function, a []Value) Value { return (*a[0].(*Value)).(Struct)[1] }
 	intrinsics["(*fmt.wrapErrors).Error"] = func(in *Interp, fn *ssa.Function, a []Value) Value { return (*a[0].(*Value)).(Struct)[0] }
 	intrinsics["engine:nilctx"] = func(in *Interp, fn *ssa.Function, a []Value) Value { return Iface{} }
+	intrinsics["path.Join"] = func(in *Interp, fn *ssa.Function, a []Value) Value {
+		var parts []string
+		for _, e := range a[0].(Slice).A {
+			parts = append(parts, concStr(e))
+		}
+		return mkStr(path.Join(parts...))
+	}
 	registerJSON()
 }
 
@@ -302,7 +311,7 @@ func iTrimSuffix(in *Interp, fn *ssa.Function, a []Value) Value {
 
 func iStrCompare(in *Interp, fn *ssa.Function, a []Value) Value {
 	x, y := a[0].(Term), a[1].(Term)
-	return tIte(strLess(x, y), mkBV(64, ^uint64(0)), tIte(tEq(x, y), mkBV(64, 0), mkBV(64, 1)))
+	return tIte(in.strLess(x, y), mkBV(64, ^uint64(0)), tIte(tEq(x, y), mkBV(64, 0), mkBV(64, 1)))
 }
 
 func iCmpCompare(in *Interp, fn *ssa.Function, a []Value) Value {
@@ -454,4 +463,26 @@ func concStr(v Value) string {
 		panic(abort("path function on a symbolic string"))
 	}
 	return t.Str
+}
+
+func iStrCut(in *Interp, fn *ssa.Function, a []Value) Value {
+	s, sep := a[0].(Term), a[1].(Term)
+	if s.C && sep.C {
+		b, af, ok := strings.Cut(s.Str, sep.Str)
+		return Tuple{mkStr(b), mkStr(af), mkBool(ok)}
+	}
+	if parts, ok := in.splitOf[s.smt()+"\x00"+sep.smt()]; ok {
+		if len(parts) == 1 {
+			return Tuple{s, mkStr(""), mkBool(false)}
+		}
+		after := mkStr("")
+		for i, p := range parts[1:] {
+			if i > 0 {
+				after = strConcat(after, sep)
+			}
+			after = strConcat(after, p)
+		}
+		return Tuple{parts[0], after, mkBool(true)}
+	}
+	panic(abort("strings.Cut on symbolic string without a registered decomposition"))
 }
